@@ -1,7 +1,115 @@
 package c04
 
-import "verif/core"
+import (
+	_ "embed"
+	"encoding/json"
+	"fmt"
+	"sort"
+	"strings"
 
-func runRegressions(x *explorer) {}
+	"verif/core"
 
-func replaySpecial(r *core.Run, c Case) {}
+	"github.com/dop251/goja"
+)
+
+// regress.json: the minimal witnesses of every listed finding (written by mkfindings.py from replay files).
+// They are executed first, so that the quick tier reaches every listed finding deterministically whatever
+// the budget; the searches re-find them independently.
+//
+//go:embed regress.json
+var regressJSON []byte
+
+type regressCase struct {
+	Signature string `json:"signature"`
+	Case      Case   `json:"case"`
+}
+
+// judge re-executes one recorded case exactly (no explorer, no minimiser) and reports it under the signature
+// its failure has.
+func judge(r *core.Run, h *harness, c Case) (string, bool) {
+	sc := findScenario(c)
+	if sc == nil || len(c.Path) == 0 {
+		return "", false
+	}
+	path, op := c.Path[:len(c.Path)-1], c.Path[len(c.Path)-1]
+	if !sc.NoModel {
+		w0, _ := runPath(h, sc, nil)
+		d0, _ := realDump(w0)
+		x := &explorer{r: r, confirm: map[string]bool{}, memo: map[string]*memoEntry{}, harness: make([]*harness, 1)}
+		if !x.checkInitial(h, sc, d0) {
+			return "", true
+		}
+		if op.T == opObserve && len(path) == 0 && sc.InitOrder != nil {
+			return "", true // the case *is* the initial-order finding
+		}
+	}
+	w, _ := runPath(freshIf(h, sc), sc, path)
+	pre, _ := realDump(w)
+	fail, _, _ := transitionRef(freshIf(h, sc), sc, path, op, c.Ref, pre)
+	if fail == nil {
+		return "", false
+	}
+	sig := strings.SplitN(fail.fine, "|", 2)[1]
+	if !(sc.NoModel && strings.Contains(fail.mismatch, "routes disagree")) {
+		sig = routePrefix(op) + sig
+	}
+	r.Violation(sig, fail.what, c)
+	return sig, true
+}
+
+func runRegressions(x *explorer) {
+	var cases []regressCase
+	if err := json.Unmarshal(regressJSON, &cases); err != nil {
+		panic("regress.json: " + err.Error())
+	}
+	runSpecials(x.r)
+	h := newHarness()
+	n, still := 0, 0
+	for _, rc := range cases {
+		if h.dirty {
+			h = newHarness()
+		}
+		n++
+		x.r.Eval(1)
+		if sig, failed := judge(x.r, h, rc.Case); failed {
+			still++
+			_ = sig
+		}
+	}
+	x.r.Set("regression_corpus", fmt.Sprintf("%d recorded witnesses re-executed, %d still fail", n, still))
+}
+
+// special cases: defects met while building the check that lie outside the operation alphabet.
+var specials = map[string]func(r *core.Run, c Case){
+	// a global `var` declaration on a fresh runtime makes every built-in global disappear from the own-key
+	// list of the global object (the template's names are never materialised once propNames is non-nil)
+	"global-var-hides-builtins": func(r *core.Run, c Case) {
+		rt := goja.New()
+		v, err := rt.RunString(`var x = 1; [Reflect.ownKeys(globalThis).length, Object.getOwnPropertyDescriptor(globalThis, "NaN") !== undefined, Reflect.ownKeys(globalThis).indexOf("NaN") >= 0].join()`)
+		if err != nil {
+			r.Violation("global|var-declaration|exception", err.Error(), c)
+			return
+		}
+		if s := v.String(); !strings.HasSuffix(s, "true,true") {
+			r.Violation("global|var-declaration|ownKeys impl misses keys", "`var x = 1` as the first statement on a fresh runtime: Reflect.ownKeys(globalThis) has "+strings.SplitN(s, ",", 2)[0]+" entries and does not list NaN although getOwnPropertyDescriptor(globalThis,'NaN') exists (built-in globals must stay listed)", c)
+		}
+	},
+}
+
+func runSpecials(r *core.Run) {
+	names := make([]string, 0, len(specials))
+	for n := range specials {
+		names = append(names, n)
+	}
+	sort.Strings(names)
+	for _, n := range names {
+		r.Eval(1)
+		specials[n](r, Case{Special: n})
+	}
+}
+
+func replaySpecial(r *core.Run, c Case) {
+	if f := specials[c.Special]; f != nil {
+		f(r, c)
+	}
+}
